@@ -24,12 +24,31 @@ def _work(job):
     mod = importlib.import_module(modname)
     S = optrun.Summary()
     cases = given if given is not None else mod.gen(tier, seed, chunk, nchunks)
-    exe = optrun.optdrv(tag)
+    wrapper = ()
+    if tag == "memcheck":
+        # valgrind memcheck on the uninstrumented build: values that are used before they were initialised (a
+        # member forgotten on one construction path) are invisible to ASan / UBSan; a sample of small cases
+        import random as _random
+        limit = 400 if tier == "quick" else 1500
+        small = [c for c in cases if len(repr(c)) < 6000]
+        _random.Random("memcheck-%d-%d" % (seed, chunk)).shuffle(small)
+        cases = small[:limit]
+        exe = optrun.optdrv("plain")
+        wrapper = list(driver.MEMCHECK)
+    else:
+        exe = optrun.optdrv(tag)
     scripts = []
     for i, case in enumerate(cases):
         cid = "c%d_%d" % (chunk, i)
-        scripts.append((cid, mod.script(cid, case)))
-    res = driver.run_cases(exe, scripts)
+        text = mod.script(cid, case)
+        if wrapper:
+            # CPU budgets are for native speed: 40 times more under valgrind
+            head, rest = text.split("\n", 1)
+            f = head.split()
+            text = "%s %s %g\n%s" % (f[0], f[1], 40 * (float(f[2]) if len(f) > 2 else 10.0), rest)
+        scripts.append((cid, text))
+    res = driver.run_cases(exe, scripts, wrapper=wrapper)
+    S.counters["cases:" + tag] += len(cases)
     if "__process__" in res:
         r = res["__process__"]
         if r.status == "watchdog":
@@ -42,6 +61,10 @@ def _work(job):
         S.n += 1
         if r is None:
             S.inconc.append("case %s was not executed" % cid)
+            continue
+        if r.status == "skipped":
+            S.counters["cases-skipped-after-enough-failed-cases"] += 1
+            S.n -= 1
             continue
         if r.status != "ok":
             if r.status == "watchdog":
@@ -71,9 +94,12 @@ def main(modname, tier, replay, tag="gasan", tags=None):
         # being reused, and state that is keyed by an object's address only shows when they are; the thorough tier
         # also repeats a share under clang ASan+UBSan
         tags = [tag, "casan", "plain"] if tier == "thorough" else [tag, "plain"]
+        import shutil
+        if shutil.which("valgrind"):
+            tags.append("memcheck")
     tags = tags or [tag]
     for tg in tags:
-        optrun.optdrv(tg)  # build once, before forking
+        optrun.optdrv(tg if tg != "memcheck" else "plain")  # build once, before forking
     conc = getattr(mod, "CONCURRENT", None)
     if replay:
         with open(replay) as fh:
@@ -88,7 +114,7 @@ def main(modname, tier, replay, tag="gasan", tags=None):
         jobs = []
         for tg in tags:
             # the first tag runs everything, further tags (other compilers) a share
-            share = n if tg == tags[0] else max(1, n // 4)
+            share = n if tg == tags[0] else (max(1, n // 4) if tg != "memcheck" else (1 if tier == "quick" else 16))
             jobs += [(modname, tier, run.seed, c, n, tg, None) for c in range(share)]
     for part in optrun.pmap(_work, jobs):
         S.merge(part)
@@ -98,6 +124,8 @@ def main(modname, tier, replay, tag="gasan", tags=None):
         S.n += mtindep.phase(run, conc, tier, S.counters)
     for key, what, case in S.viol:
         run.violation(key, what, case)
+    if S.counters.get("cases-skipped-after-enough-failed-cases", 0) and not S.viol:
+        run.inconc("cases were skipped after many failed cases, but no violation was recorded")
     for r in S.inconc[:5]:
         run.inconc(r)
     for s in S.samples:
